@@ -29,6 +29,9 @@ extern void mpt_connection_close(MPT_STRUCT(connection) *con)
 	}
 	else if ((buf = con->out.buf._buf)) {
 		mpt_stream_close((void *) buf);
+		/* the stream is no buffer: a datagram socket set afterwards must not find it */
+		free(buf);
+		con->out.buf._buf = 0;
 	}
 	con->cid = 0;
 	mpt_command_clear(&con->_wait);
